@@ -500,7 +500,7 @@ struct DriverT {
       return false;
     };
     // place key buffers
-    std::vector<std::uint8_t> arena(from.size() + to.size() + 2);
+    std::vector<std::uint8_t> arena(2 * std::max(from.size(), to.size()) + 2);  // either key fits in either half
     Bytes f2, t2;
     KeyT kf{}, kt{};
 #if SEQ_KEY == 1
@@ -639,7 +639,22 @@ struct DriverT {
     const long nrange = budget;
     for (long i = 0; i < nrange; ++i) {
       const auto& a = rng.pick(bounds);
-      const auto& b = rng.chance(10) ? a : rng.pick(bounds);
+      Bytes b = rng.chance(10) ? a : rng.pick(bounds);
+      if constexpr (kIsKv) {
+        // the END bound of a range is only ever compared with the visited keys (never sought), so it may stand
+        // in a prefix relation with stored keys: a proper prefix of one ("all keys below this prefix"), or a
+        // stored key extended by a byte (seed c02e: the length tie-break of that comparison)
+        if (!shadow.empty() && rng.chance(30)) {
+          auto it = shadow.begin();
+          std::advance(it, static_cast<long>(rng.below(shadow.size())));
+          b = *it;
+          const auto how = rng.below(4);
+          if (how == 0) b.push_back(0x00);
+          else if (how == 1) b.push_back(0xFF);
+          else if (b.size() > 1) b.resize(1 + rng.below(b.size() - 1));
+          if (b == a) b.push_back(0x01);
+        }
+      }
       long halt = 0;
       if (rng.chance(25)) halt = 1 + static_cast<long>(rng.below(static_cast<std::uint64_t>(n + 1)));
       if constexpr (kIsKv) {
